@@ -5,6 +5,9 @@ from vlib import *
 PID = "C17"
 MALFORMED = ["0x", "0b", "0b2", "12a", "0xg", "1_000", "0x1_0", "--5", "-", "0x-5", "5-3", "0b102",
              "0x0x1", "-0x", "1e3", "0b", "0o17", "-0b-1", "123456789012", "0xfffffffff", "-99999999999"]
+# a plus sign is no part of a literal in this dialect, wherever it stands: the text is not one token, the error has to
+# start inside it (like a malformed character literal)
+MALFORMED_PLUS = ["-+5", "++7", "0x+10", "-0x+10", "0b+1", "+-5", "5+", "0x1+", "-+0x10"]
 CHARS = [("'a'", 97), ("'0'", 48), ("' '", 32), ("'\\n'", 10), ("'\\\\'", 92), ("'\\''", 39), ("'\\0'", 0),
          ("'\\t'", 9), ("'~'", 126), ("'é'", 233), ("'€'", 8364), ("'\\u00e9'", 233), ("'\"'", 34)]
 CTX_LINE = {"li": "li a0, {}", "addi": "addi a0, a1, {}", "lw": "lw a0, {}(sp)", "word": ".word {}",
@@ -46,6 +49,10 @@ def run(tier, replay=None):
     for lit in MALFORMED:
         for ctx in ("li", "addi", "word", "lw", "csr", "lui"):
             cases.append(mk({"kind": "num", "notation": "malformed", "ctx": ctx, "lit": lit,
+                             "line": CTX_LINE[ctx].format(lit)}))
+    for lit in MALFORMED_PLUS:
+        for ctx in ("li", "addi", "word", "lw", "csr", "lui"):
+            cases.append(mk({"kind": "badchar", "notation": "malformed-plus", "ctx": ctx, "lit": lit,
                              "line": CTX_LINE[ctx].format(lit)}))
     for lit, val in CHARS:
         cases.append(mk({"kind": "char", "notation": "char", "ctx": "li", "lit": lit, "value": val,
@@ -96,7 +103,7 @@ def run(tier, replay=None):
         "the word 'zero' is accepted as an immediate by the implementation's own unit tests and is not generated",
     ]
     return out.finish(extra_cov={
-        "generated_cases": n_gen, "malformed_cases": len(MALFORMED) * 6, "char_cases": len(CHARS),
+        "generated_cases": n_gen, "malformed_cases": (len(MALFORMED) + len(MALFORMED_PLUS)) * 6, "char_cases": len(CHARS),
         "random_cases": n_rand, "evaluations": len(cases),
         "distinct_nontrivial": len({c["line"] for c in cases}),
         "exhaustive": False,
